@@ -18,6 +18,7 @@ CONSTANTS NX,        \* plain variables 0..NX-1
           Rows,      \* Rows[k]: the definition of slack variable NX+k-1 as a function plain variable -> integer coefficient
           Atoms,     \* Atoms[i] = [x |-> variable, o |-> "leq" | "geq", v |-> bound (an InfRat)]: literal i
           MaxLevel,
+          WithPairs, \* TRUE: two literals can also be assigned in one batch (a decision implying both through clauses)
           ReasonBug  \* TRUE: assert_upper saves the reason of the LOWER bound in the undo layer (a seeded mistake)
 
 NR == Len(Rows)
@@ -254,20 +255,27 @@ Init ==
 
 Alive == lastOp[1] # "conflict"
 \* the sat core assigns literal p (atom i true / false) at the current level and runs its propagation to the end
-AssertLit(i, tv) ==
-  /\ Alive /\ aval[i] = "U"
-  /\ LET p == IF tv = "T" THEN i ELSE -i
-         S0 == [Cur EXCEPT !.aval[i] = tv, !.q = <<p>>]
+\* the sat core assigns the literals ps (one decision, or one decision that implies several literals through clauses: they
+\* are all assigned before the theory sees the first of them) at the current level and runs its propagation to the end
+AssertBatch(ps) ==
+  /\ Alive /\ \A k \in DOMAIN ps : aval[LitAbs(ps[k])] = "U"
+  /\ \A k, m \in DOMAIN ps : k # m => LitAbs(ps[k]) # LitAbs(ps[m])
+  /\ LET S0 == [Cur EXCEPT !.aval = [i \in 1..NA |-> IF \E k \in DOMAIN ps : LitAbs(ps[k]) = i
+                                                    THEN (IF (CHOOSE k \in DOMAIN ps : LitAbs(ps[k]) = i) \in {k \in DOMAIN ps : ps[k] > 0} THEN "T" ELSE "F")
+                                                    ELSE aval[i]],
+                          !.q = ps]
          r == RunQueue(S0)
      IN IF r.ok
         THEN /\ tab' = r.S.tab /\ vals' = r.S.vals /\ lb' = r.S.lb /\ ub' = r.S.ub /\ aval' = r.S.aval
              /\ layers' = IF layers = <<>> THEN layers ELSE [layers EXCEPT ![Len(layers)] = r.S.top]
-             /\ lastOp' = <<"assert", p, r.S.lem, r.S.cycling>>
+             /\ lastOp' = <<"assert", ps, r.S.lem, r.S.cycling>>
              /\ hist' = hist /\ lemdb' = r.S.db
         ELSE \* a conflict: the sat core analyses it and backjumps; the model stops here and keeps the explanation
-             /\ lastOp' = <<"conflict", p, r.S.lem, {r.S.cnfl[k] : k \in DOMAIN r.S.cnfl}, r.S.aval>>
+             /\ lastOp' = <<"conflict", ps, r.S.lem, {r.S.cnfl[k] : k \in DOMAIN r.S.cnfl}, r.S.aval>>
              /\ lemdb' = r.S.db
              /\ UNCHANGED <<tab, vals, lb, ub, layers, aval, hist>>
+AssertLit(i, tv) == AssertBatch(<<IF tv = "T" THEN i ELSE -i>>)
+AssertPair(i, tvi, j, tvj) == i # j /\ AssertBatch(<<IF tvi = "T" THEN i ELSE -i, IF tvj = "T" THEN j ELSE -j>>)
 Push ==
   /\ Alive /\ Len(layers) < MaxLevel
   /\ layers' = Append(layers, << >>)
@@ -289,7 +297,8 @@ Pop ==
 \* databases reachable for the same bounds / values / truth values are too many to enumerate; random simulation covers them
 ViewNoLemmas == <<tab, vals, lb, ub, layers, aval, hist, lastOp>>
 
-Next == Push \/ Pop \/ \E i \in 1..NA, tv \in {"T", "F"} : AssertLit(i, tv)
+Next == Push \/ Pop \/ (\E i \in 1..NA, tv \in {"T", "F"} : AssertLit(i, tv))
+        \/ (WithPairs /\ \E i, j \in 1..NA, tvi, tvj \in {"T", "F"} : AssertPair(i, tvi, j, tvj))
 Spec == Init /\ [][Next]_vars
 
 \* ---- properties --------------------------------------------------------------------------------------------------------
